@@ -83,7 +83,7 @@ def eq_dist(d, spec, universe, name_ok=None):
     return S.And([S.eq(d.prob(e), spec.get(e, 0)) for e in universe])
 
 
-def h_algebra(kind, n, proj_id, mustfail=False):
+def h_algebra(kind, n, proj_id, mustfail=False, kind2='dict'):
     events = POOL[:n]
     ws = leaves('p', n)
     uses = []
@@ -115,8 +115,8 @@ def h_algebra(kind, n, proj_id, mustfail=False):
         x, y = S.real('x', 0, None), S.real('y', 0, None)
         ws2 = leaves('q', n)
         other_events = events[1:] + ['extra']
-        d2 = dct.DictDistribution(dict(zip(other_events, ws2)))
-        f2 = dict(zip(other_events, ws2))
+        d2 = make(kind2, other_events, ws2)
+        f2 = pmf(kind2, other_events, ws2)
         mix = d * x | y * d2
         S.check('mixture:a*x|b*y-adds-pointwise', S.And([S.eq(mix.prob(e), x * f.get(e, 0) + y * f2.get(e, 0)) for e in set(f) | set(f2)] +
                                                        [S.truth(set(mix.support) == set(f) | set(f2))]))
@@ -125,9 +125,10 @@ def h_algebra(kind, n, proj_id, mustfail=False):
         j = d.joint(d2)
         S.check('joint:product-measure', S.And([S.eq(j.prob((a, b)), f[a] * f2[b]) for a in f for b in f2] + [S.truth(len(j) == len(f) * len(f2))]))
         # chain: law of total probability, kernel patterns
-        kern = {e: dct.DictDistribution({proj[e]: S.real('k_%d_0' % i, 0, None), 'z': S.real('k_%d_1' % i, 0, None)}) for i, e in enumerate(f)}
+        kern = {e: make(kind2, [proj[e], 'z'], [S.real('k_%d_0' % i, 0, None), S.real('k_%d_1' % i, 0, None)]) for i, e in enumerate(f)}
         c = d.chain(lambda e: kern[e])
         ys = set(img) | {'z'}
+        ys = set(img) | ({'z'} if kind2 != 'det' else set())
         S.check('chain:law-of-total-probability', S.And([S.eq(c.prob(yv), S.Sum(f[e] * kern[e].prob(yv) for e in f)) for yv in ys] +
                                                        [S.truth(set(c.support) == ys)]))
         S.check('frame:no-ambient-generator-touched-by-the-algebra', S.truth(len(uses) == 0))
@@ -336,6 +337,9 @@ def tasks(tier, seed):
                 mf = (n >= 2 and pid == 0 and kind != 'det')
                 T.append(Task('algebra/%s/n%d/proj%d' % (kind, n, pid), h_algebra, (kind, n, pid, mf), tier='B',
                               expect_fail=('mustfail:marginalize-keeps-first-only',) if mf else ()))
+                if pid == 0 or tier == 'thorough':
+                    for kind2 in ('uniform', 'det', 'table'):
+                        T.append(Task('algebra/%s-with-%s/n%d/proj%d' % (kind, kind2, n, pid), h_algebra, (kind, n, pid, False, kind2), tier='B'))
             for zp in range(2 ** n - 1):
                 T.append(Task('condition/%s/n%d/zero%d' % (kind, n, zp), h_condition_normalize, (kind, n, zp), tier='B'))
             for zp in (range(2 ** n - 1) if kind in ('dict', 'table') else [0]):
